@@ -441,7 +441,21 @@ func TestC19_Cohort(t *testing.T) {
 			default:
 				a.Y = genCohortRich(t)
 			}
-			if op.name == "Pow" || op.name == "PowWithMode" {
+			if (op.name == "Pow" || op.name == "PowWithMode") && ir(t, 0, 3, "unitOperand") == 0 {
+				// plus or minus one, in the shortest or the 35-digit encoding, as base or as exponent: the shortcuts
+				// 1**y, x**1, x**-1, (-1)**Inf all hinge on recognising every encoding of one
+				one := DFin(genSign(t), bi(1), 0)
+				other := genCohortRich(t)
+				if ir(t, 0, 2, "special") == 0 {
+					other = genSpecial(t)
+				}
+				if rapid.Bool().Draw(t, "oneIsBase") {
+					a.X, a.Y = one, other
+				} else {
+					a.X, a.Y = other, one
+				}
+				a.X2 = genCohortMember(t, a.X)
+			} else if op.name == "Pow" || op.name == "PowWithMode" {
 				if ir(t, 0, 1, "smallPow") == 0 {
 					a.Y = DFin(genSign(t), bi(int64(ir(t, 0, 40, "n"))), ir(t, -2, 1, "e"))
 				}
